@@ -57,6 +57,37 @@ func encodeDrawn(t *rapid.T, typ corpus.Type) []byte {
 	return corpus.Encode(corpus.Wrap(m))
 }
 
+// canaries: per corpus type, the first canonical encoding this process decoded successfully, with the
+// digest it gave. Decoding it again later - after any number of other, also failing, decodes in this
+// process - must give the same outcome: Unmarshal is a function of its input, not of the process's history.
+type canary struct {
+	b   []byte
+	dig string
+}
+
+var canaries = map[string]canary{}
+
+func checkCanary(w *rep.Worker, typ corpus.Type) {
+	c, ok := canaries[typ.String()]
+	if !ok {
+		return
+	}
+	m := typ.New()
+	r := unmarshal(m, c.b, 0)
+	w.Probes["canary_redecodes"]++
+	if r.pan != nil || r.err != nil {
+		w.Step("canary of %s: the encoding %x decoded fine earlier in this process", typ, clip(c.b))
+		w.Violate("unmarshal-outcome-depends-on-process-history", fmt.Sprintf("%s: %x was decoded successfully earlier in this process and is now rejected: err=%v panic=%v", typ, clip(c.b), r.err, r.pan))
+		delete(canaries, typ.String())
+		return
+	}
+	if d := corpus.Digest(m); d != c.dig {
+		w.Step("canary of %s", typ)
+		w.Violate("unmarshal-outcome-depends-on-process-history", fmt.Sprintf("%s: %x decoded to %.150s earlier in this process and to %.150s now", typ, clip(c.b), c.dig, d))
+		delete(canaries, typ.String())
+	}
+}
+
 func runC06(t *rapid.T, w *rep.Worker) {
 	typ := corpus.All[rapid.IntRange(0, len(corpus.All)-1).Draw(t, "type")]
 	w.Begin(fmt.Sprintf("type=%s runtime=%s", typ, typ.Runtime))
@@ -140,6 +171,10 @@ func runC06(t *rapid.T, w *rep.Worker) {
 			w.Violate("marshal-after-unmarshal-depends-on-destination", fmt.Sprintf("%s: re-marshal gives %x (ok=%v) vs %x (ok=%v)", typ, clip(mb), ok1, clip(fb), ok2))
 		}
 	}
+	if _, have := canaries[typ.String()]; !have && len(b) > 0 && rf.pan == nil && rf.err == nil {
+		canaries[typ.String()] = canary{b: append([]byte{}, b...), dig: corpus.Digest(fresh)}
+	}
+	checkCanary(w, typ)
 	w.Probes["judged_unmarshals"]++
 	if nprefix > 0 {
 		w.EndNontrivial()
